@@ -9,18 +9,18 @@ from . import common, gen
 
 # family plans: (family, quick count, thorough count)
 PLANS = {
-    "C01": [("q", 60, 600), ("qbig", 8, 80), ("qgrow", 40, 400), ("a", 20, 200), ("re", 40, 400)],
+    "C01": [("q", 60, 600), ("qbig", 8, 80), ("qgrow", 40, 400), ("a", 20, 200), ("re", 40, 400), ("qdeep", 8, 60)],
     "C02": [("a", 120, 1500)],
     "C03": [("a", 120, 1500)],
     "C04": [("a", 120, 1500)],
     "C05": [("a", 120, 1500), ("q", 60, 600), ("t", 60, 600), ("re", 20, 200), ("park", 6, 30)],
-    "C06": [("q", 100, 1200), ("qbig", 4, 40)],
+    "C06": [("q", 100, 1200), ("qbig", 4, 40), ("qdeep", 6, 40)],
     "C07": [("t", 120, 1500), ("c19", 15, 150)],
     "C08": [("t", 120, 1500)],
     "C09": [("t", 120, 1500)],
     "C10": [("t", 120, 1500)],
     "C15": [("q", 60, 600), ("t", 40, 400), ("a", 20, 200)],
-    "C16": [("q", 40, 400), ("qbig", 8, 80), ("qgrow", 30, 300), ("a", 60, 600), ("t", 30, 300), ("re", 30, 300)],
+    "C16": [("q", 40, 400), ("qbig", 8, 80), ("qgrow", 30, 300), ("a", 60, 600), ("t", 30, 300), ("re", 30, 300), ("qdeep", 4, 30)],
     "C19": [("c19", 80, 1000), ("q", 30, 300), ("t", 30, 300)],
     "C20": [("alog", 120, 1500)],
     "C18": [("q", 25, 150), ("qbig", 3, 20), ("t", 25, 150), ("c19", 8, 50), ("a", 30, 200), ("re", 15, 100), ("park", 6, 30)],
